@@ -382,6 +382,19 @@ func runGlobRoute(args []string) error {
 		{"", "", []string{"Text/HTML ; q=1", "image/png"}},
 		{"cors", "empty", []string{"text/plain"}},
 	}
+	// the whole lattice of navigation headers: each of the two Sec-Fetch headers absent / the navigation value / another
+	// value, x Accept with / without text/html (run on the first nLattice fixed targets; the combinations above on all)
+	var lattice []navCombo
+	for _, mo := range []string{"", "navigate", "cors", "same-origin"} {
+		for _, de := range []string{"", "document", "empty", "iframe"} {
+			for _, ac := range [][]string{{"text/html"}, {"application/json"}, {"text/html, */*;q=0.8"}, nil} {
+				lattice = append(lattice, navCombo{mo, de, ac})
+			}
+		}
+	}
+	nBase := len(combos)
+	combos = append(combos, lattice...)
+	const nLattice = 6
 	// raw request paths: dot segments, doubled slashes, percent-encoded separators and dots, trailing slashes
 	fixed := []string{"/", "/public", "/public/", "/public/a", "/public/a/b", "/admin", "/public/../admin", "/public/..%2Fadmin",
 		"/public/%2e%2e/admin", "/public/%2E%2E/admin", "/public/./a", "/public//a", "//public/a", "/public/a/..", "/public/a/../..",
@@ -429,6 +442,9 @@ func runGlobRoute(args []string) error {
 					for ci, cb := range combos {
 						// fixed targets: full product; random targets: one (method, combo) each, rotating
 						if ti >= len(fixed) && (mi != ti%len(methods) || ci != (ti/len(methods))%len(combos)) {
+							continue
+						}
+						if ti < len(fixed) && ci >= nBase && ti >= nLattice {
 							continue
 						}
 						referer := ""
